@@ -37,9 +37,14 @@ class RandomChooser:
     """Uniform random scheduling with a pre-emption probability at line events and a time-jump
     probability (wake a sleeper although others are runnable)."""
 
-    def __init__(self, seed, p_preempt=0.1, p_jump=0.1, fair_time=False, jump_horizon_ms=50):
+    def __init__(self, seed, p_preempt=0.1, p_jump=0.1, fair_time=False, jump_horizon_ms=50, p_stall=0.0):
         self.rng = random.Random(seed)
         self.p_preempt = p_preempt
+        # opt-in: a thread that has just released a lock is, with this probability, held back for a long stretch while the
+        # others run (what a narrowed lock scope needs in order to show); `stall_on_release` adds the yield point at release
+        self.p_stall = p_stall
+        self.stall_on_release = p_stall > 0
+        self.stalled = {}
         self.p_jump = 0.0 if fair_time else p_jump
         self.jump_horizon_ms = jump_horizon_ms
         self.record = []
@@ -48,6 +53,18 @@ class RandomChooser:
     def pick_thread(self, me, runnable, sleepers, reason):
         """runnable / sleepers: lists of threads in creation order. Returns the thread to run."""
         rng = self.rng
+        if self.stall_on_release:
+            if reason == 'release' and me in runnable and len(runnable) > 1 and rng.random() < self.p_stall:
+                self.stalled[me.tid] = rng.randint(200, 3000)
+            for tid in list(self.stalled):
+                self.stalled[tid] -= 1
+                if self.stalled[tid] <= 0:
+                    del self.stalled[tid]
+            free = [th for th in runnable if th.tid not in self.stalled]
+            if free:
+                runnable = free
+            else:
+                self.stalled.clear()
         if not runnable:
             # nothing can run: advance time to the earliest deadline (ties: creation order)
             t = min(sleepers, key=lambda th: (th.deadline, th.tid))
@@ -388,6 +405,9 @@ class VLock:
             self.depth = 0
             if not s.aborting:
                 s.ev('release', self.name)
+                if getattr(s.chooser, 'stall_on_release', False) and s.current is not None and \
+                        s.current.real is real_threading.current_thread():
+                    s.yield_('release')
 
     def locked(self):
         return self.owner is not None
@@ -837,11 +857,11 @@ class Installed:
 
 def run_scenario(scenario, broker_factory, seed=0, plan=None, chooser=None, trace_lines=True,
                  repo_path=None, max_steps=200000, p_preempt=0.1, p_jump=0.1, fair_time=False,
-                 trace_filter=None, real_timeout=30.0, jump_horizon_ms=50):
+                 trace_filter=None, real_timeout=30.0, jump_horizon_ms=50, p_stall=0.0):
     """scenario(ctx) runs in the managed main thread.  ctx has .sched .net .spawn(fn,name) .join(t).
     Returns ctx after the run (ctx.main.exc holds an escaped exception)."""
     chooser = chooser or RandomChooser(seed, p_preempt=p_preempt, p_jump=p_jump, fair_time=fair_time,
-                                       jump_horizon_ms=jump_horizon_ms)
+                                       jump_horizon_ms=jump_horizon_ms, p_stall=p_stall)
     repo_path = repo_path or os.environ.get('VERIF_REPO', '/repo')
     sched = Scheduler(chooser, repo_path, trace_lines=trace_lines, max_steps=max_steps, trace_filter=trace_filter)
     net = Net(sched, broker_factory, plan)
